@@ -23,11 +23,11 @@ UNIVERSES = {
     "str": ["a", "b", "E1", "N2", "10", "n", "zz", "E"],
     "npint": [np.int64(i) for i in (0, 1, 2, 5, 9, 11, 30, 31)],
 }
-LAYERS = [["L1", "L2"], ["a", "b", "c"], ["x", "y", "z", "E"], ["social", "work"]]
-WEIGHTS = [0.5, 1, 1.5, 2, 2.5, 3, 7, 2.0, 1.0]
+LAYERS = [["L1", "L2"], ["a", "b", "c"], ["x", "y", "z", "E"], ["social", "work"], ["", "b"], [0, 1, 2]]
+WEIGHTS = [0.5, 1, 1.5, 2, 2.5, 3, 7, 2.0, 1.0, 0, 0.0]
 MDS = [None, {}, {"a": 1}, {"c": "x"}, {"a": 2, "n": {"k": [1, 2]}}, {"role": "hub", "t": None}]
 FIELDS = ["a", "c", "f", "role"]
-VALUES = [0, 1, "v", [1, 2], {"q": 1}, None, 2.5]
+VALUES = [0, 1, "v", [1, 2], {"q": 1}, None, 2.5, "", False]
 BAD_TIMES = [-1, -3, 1.5, "2", None, 2.0]
 
 
